@@ -1,7 +1,7 @@
 SPECIFICATION Spec
 CONSTANTS
   MaxK = 3
-  FreqVals = {0, 1, 2}
+  FreqVals = {0, 1}
   PriorVals = {0, 1}
   CostVals = {0, 1, 2}
   CostVals3 = {0, 1, 2}
